@@ -456,7 +456,7 @@ var aliasStop = map[string]bool{
 	"for": true, "returning": true, "set": true, "using": true, "having": true, "window": true, "into": true,
 	"intersect": true, "except": true, "fetch": true, "as": true, "when": true, "then": true, "else": true, "end": true,
 	"and": true, "or": true, "not": true, "is": true, "in": true, "like": true, "between": true, "lateral": true,
-	"do": true, "loop": true, "asc": true, "desc": true, "nulls": true, "conflict": true, "with": true, "select": true,
+	"do": true, "loop": true, "at": true, "asc": true, "desc": true, "nulls": true, "conflict": true, "with": true, "select": true,
 }
 
 func (p *parser) optAlias() string {
@@ -1138,6 +1138,16 @@ func (p *parser) parsePostfixOn(e *Node) *Node {
 			e = e.Args[0].(*Node)
 		}
 		switch {
+		case p.isKw("at") && p.isKwAt(1, "time") && p.isKwAt(2, "zone"):
+			// e AT TIME ZONE z  =  timezone(z, e)
+			p.next()
+			p.next()
+			p.next()
+			z := p.parsePrimary()
+			if z.Is("Expr.paren") {
+				z = z.Args[0].(*Node)
+			}
+			e = N("Expr.call", "", "timezone", []*Node{z, e})
 		case p.isOp("::"):
 			p.next()
 			e = N("Expr.cast", e, p.parseType())
